@@ -17,7 +17,7 @@ def pval(kind, v):
     if kind == 'PBool':
         return '(VBool %s)' % cp.boolean(v)
     if kind == 'PText':
-        return '(VText [%s]%%Z)' % ';'.join(str(ord(c)) for c in v)
+        return '(VText [%s]%%Z)' % ';'.join(str(b) for b in v.encode('utf-8'))     # a text is modelled by its UTF-8 bytes
     if kind == 'PBytes':
         return '(VBytes %s)' % cp.byts(v)
     return '(%s %s)' % ({'PInt': 'VInt', 'PLong': 'VLong', 'PBig': 'VBig', 'PEnum': 'VEnum',
@@ -167,7 +167,8 @@ def values_for(kind, rng, n_random):
     if kind == 'PText':
         alpha = 'abcXYZ019 _-.~!'
         vs = [''.join(rng.choice(alpha) for _ in range(n)) for n in range(0, 41)]
-        vs += ['\x00', '\x7f', 'a\x00b', 'é', 'café', '€', '\x80']
+        vs += ['\x00', '\x7f', 'a\x00b', 'é', 'café', '€', '\x80', '\u07ff', '\u0800', '\ud7ff', '\ue000', '\uffff',
+               '\U00010000', '\U0010ffff', 'a€b\U0001f511c']
         return vs
     if kind == 'PBytes':
         vs = [bytes(rng.getrandbits(8) for _ in range(n)) for n in range(0, 41)]
@@ -205,4 +206,19 @@ def corruptions(good, rng):
         c = bytearray(b)
         c[rng.randrange(8, n)] = rng.getrandbits(8)
         out.append(bytes(c))
+    return out
+
+
+def utf8_probes(tag=TAG):
+    """TextString encodings whose value bytes are well-formed / ill-formed UTF-8 (boundaries of every rule)."""
+    seqs = [b'\xc2\x80', b'\xdf\xbf', b'\xc0\x80', b'\xc1\xbf', b'\xc2', b'\xc2\x7f', b'\xc2\xc0',
+            b'\xe0\xa0\x80', b'\xe0\x9f\xbf', b'\xe0\x80\x80', b'\xed\x9f\xbf', b'\xed\xa0\x80', b'\xed\xbf\xbf', b'\xee\x80\x80',
+            b'\xef\xbf\xbf', b'\xe2\x82', b'\xe2\x82\xac', b'\xe2\x28\xa1', b'\xe1\x80\xc0',
+            b'\xf0\x90\x80\x80', b'\xf0\x8f\xbf\xbf', b'\xf4\x8f\xbf\xbf', b'\xf4\x90\x80\x80', b'\xf5\x80\x80\x80',
+            b'\xf0\x9f\x94\x91', b'\xf0\x9f\x94', b'\xf1\x80\x80\x80', b'\xf3\xbf\xbf\xbf', b'\xf1\x80\x80\x7f',
+            b'\x80', b'\xbf', b'\xff', b'\xfe', b'a\x80b', b'ab\xc3\xa9cd', b'\xc3\xa9' * 4, b'\xf8\x88\x80\x80\x80']
+    out = []
+    for v in seqs:
+        pad = (-len(v)) % 8
+        out.append(struct.pack('!I', tag.value)[1:] + b'\x07' + struct.pack('!I', len(v)) + v + b'\x00' * pad)
     return out
